@@ -80,6 +80,10 @@ InitInput ==
      /\ \E S \in SUBSET SmallUniverse, byflag \in BOOLEAN :
           /\ env = [DefEnv EXCEPT !.checks = IF byflag THEN No ELSE L(S)]
           /\ argv = [DefArg EXCEPT !.checks = IF byflag THEN L(S) ELSE No]
+  \/ /\ Mode = "excl_cat"   \* C08: every subset of the codes of one category (in particular all of its codes but one)
+     /\ \E k \in Cats, byflag \in BOOLEAN : \E S \in SUBSET CodesOf(k) :
+          /\ env = [DefEnv EXCEPT !.checks = IF byflag THEN No ELSE L(S)]
+          /\ argv = [DefArg EXCEPT !.checks = IF byflag THEN L(S) ELSE No]
   \/ /\ Mode = "excl_pairs" \* C08: every singleton and pair of the full universe; flag wins over environment
      /\ \E t1 \in CheckTokens, t2 \in CheckTokens, ch \in {"flag", "env", "both"} :
           /\ env = [DefEnv EXCEPT !.checks = IF ch = "flag" THEN No ELSE IF ch = "both" THEN L({"ALL"}) ELSE L({t1, t2})]
@@ -135,6 +139,8 @@ Plants == {[cls |-> "regular", code |-> c] : c \in AllCodes} \cup {[cls |-> "reg
           \cup {[cls |-> "test", code |-> "IMM02"], [cls |-> "tdpath", code |-> "CTOR01"], [cls |-> "genpath", code |-> "TONL02"]}
           \* a _test.go file inside the testdata directory: needs scan-tests *and* a list without testdata
           \cup {[cls |-> "tdtest", code |-> "IMM03"]}
+          \* uses nested inside other reported uses: d.TT{X: d.TF(1)}, d.PT{X: s.PM(2)}, d.T{X: len(new(d.T).Xs)} ...
+          \cup {[cls |-> "nested", code |-> c] : c \in {"TONL01", "TONL02", "TONL03", "PKGO01", "PKGO02", "PKGO03", "CTOR01", "CTOR02"}}
           \* violations that the source itself suppresses with one `@ignore IMM01, CTOR01` / `@ignore TONL, PKGO02` directive each:
           \* they are invisible under every configuration (excluding one of the codes project-wide does not revive the other)
           \cup {[cls |-> "ignored", code |-> c] : c \in {"IMM01", "CTOR01", "TONL02", "PKGO02"}}
